@@ -265,6 +265,9 @@ def parse_functions(text):
 			body, j = parse_block(lines, i + 1, 1)
 			params = []
 			for p in [x.strip() for x in m.group(4).split(',') if x.strip()]:
+				if re.fullmatch(r'\w+', p):
+					params.append((p, 'object'))
+					continue
 				pm = re.match(r'(?:(const)\s+)?([\w]+(?:\[:\])?)\s*(\*)?\s*(\w+)$', p)
 				if pm:
 					params.append((pm.group(4), pm.group(2) + ('*' if pm.group(3) else '')))
@@ -704,6 +707,43 @@ def regenerate(repo: Path, outdir: Path) -> dict:
 		for n in missing:
 			report['untranslatable'].append(f'{fname}: function {n} not found')
 		extra = ''
+		if fname == 'kmers.pyx':
+			# the Python-level wrappers: length guard, error propagation, buffer sizes — read structurally
+			def wrapper(name, cfun):
+				fn = [f for f in funcs if f['name'] == name and f['kind'] == 'def']
+				if not fn:
+					return None, False
+				b = [st for st in fn[0]['body'] if st[0] != 'decl' or '=' in st[1]]
+				guard = None
+				try:
+					g = b[1] if b[0][0] == 'decl' else b[0]
+					cond = g[1][0][1]
+					if (g[0] == 'ifchain' and len(g[1]) == 1 and cond[0] == 'bin' and cond[1] == '>' and cond[2] == ('index', ('attr', ('name', 'kmer'), 'shape'), ('num', 0))
+					        and cond[3][0] == 'num' and g[1][0][2][0][0] == 'raise'):
+						guard = cond[3][1]
+				except Exception:
+					pass
+				want_tail = [('assign', ('name', 'idx'), '=', ('call', ('name', cfun), [('name', 'kmer'), ('addr', ('name', 'exc'))], {})),
+				             ('ifchain', [('if', ('name', 'exc'), [('raise', "ValueError('Invalid character in k-mer')")])]),
+				             ('return', ('name', 'idx'))]
+				ok = guard is not None and b[-3:] == want_tail and ('decl', 'bint exc = False') in fn[0]['body']
+				return guard, ok
+			g1, ok1 = wrapper('kmer_to_index', 'c_kmer_to_index')
+			g2, ok2 = wrapper('kmer_to_index_rc', 'c_kmer_to_index_rc')
+			i2k = [f for f in funcs if f['name'] == 'index_to_kmer']
+			rc = [f for f in funcs if f['name'] == 'revcomp']
+			ok3 = bool(i2k) and i2k[0]['body'] == [('assign', ('name', 'buf'), '=', ('call', ('name', 'bytearray'), [('name', 'k')], {})),
+			                                     ('expr', ('call', ('name', 'c_index_to_kmer'), [('name', 'index'), ('name', 'buf')], {})),
+			                                     ('return', ('call', ('name', 'bytes'), [('name', 'buf')], {}))]
+			ok4 = bool(rc) and rc[0]['body'] == [('assign', ('name', 'buf'), '=', ('call', ('name', 'bytearray'), [('call', ('name', 'len'), [('name', 'seq')], {})], {})),
+			                                   ('expr', ('call', ('name', 'c_revcomp'), [('name', 'seq'), ('name', 'buf')], {})),
+			                                   ('return', ('call', ('name', 'bytes'), [('name', 'buf')], {}))]
+			facts = [f'def kmerLenGuard : Nat := {g1 if g1 is not None else 0}', f'def kmerRcLenGuard : Nat := {g2 if g2 is not None else 0}',
+			         f'def kmerWrappersCanonical : Bool := {"true" if (ok1 and ok2) else "false"}',
+			         f'def decodeWrapperCanonical : Bool := {"true" if ok3 else "false"}', f'def revcompWrapperCanonical : Bool := {"true" if ok4 else "false"}']
+			report['kmers_wrappers'] = {'guard': g1, 'guard_rc': g2, 'canonical': [ok1, ok2, ok3, ok4]}
+			extra = ("\n\n/-! structural facts read off the parsed Python-level wrappers (`def kmer_to_index` … ): the length guard `kmer.shape[0] > N`,\n"
+			         "error propagation through `exc`, output buffers of length `k` / `len(seq)` -/\n" + '\n'.join(facts) + '\n')
 		if fname == 'metric.pyx':
 			# the def-level wrappers and the prange loop: structural facts checked by the Tie module
 			pf = [f for fn in funcs if fn['name'] == '_jaccarddist_parallel' for f in prange_facts(fn)]
